@@ -89,11 +89,12 @@ type Decls struct {
 	strOrd    []string
 	typeTags  map[string]int
 	opaque    map[string]bool // qualified type names forced opaque
+	transparent map[string]bool // dependency struct types whose fields are modelled
 }
 
 func newDecls(modPath string) *Decls {
 	return &Decls{modPath: modPath, consts: map[string]*Sort{}, dtypes: map[string]*Sort{}, funs: map[string]string{},
-		structOf: map[string]*Sort{}, strLits: map[string]string{}, typeTags: map[string]int{}, opaque: map[string]bool{}}
+		structOf: map[string]*Sort{}, strLits: map[string]string{}, typeTags: map[string]int{}, opaque: map[string]bool{}, transparent: map[string]bool{}}
 }
 
 func sanitize(s string) string {
@@ -165,14 +166,29 @@ func (d *Decls) addAxiomTrig(name, f, trig string) {
 // axiomsFor returns the axioms whose trigger symbol occurs in the query body.
 func (d *Decls) axiomsFor(body string) string {
 	var b strings.Builder
-	for i, a := range d.axioms {
-		ok := false
-		for _, t := range strings.Split(d.axiomTrig[i], "|") {
-			if t != "" && strings.Contains(body, t) {
-				ok = true
+	included := make([]bool, len(d.axioms))
+	// fixpoint: an included axiom may mention further spec functions
+	for changed := true; changed; {
+		changed = false
+		for i, a := range d.axioms {
+			if included[i] {
+				continue
+			}
+			ok := false
+			for _, t := range strings.Split(d.axiomTrig[i], "|") {
+				if t != "" && strings.Contains(body, t) {
+					ok = true
+				}
+			}
+			if ok {
+				included[i] = true
+				changed = true
+				body += "\n" + a
 			}
 		}
-		if ok {
+	}
+	for i, a := range d.axioms {
+		if included[i] {
 			fmt.Fprintf(&b, "; axiom %s\n(assert %s)\n", d.axiomName[i], a)
 		}
 	}
@@ -208,12 +224,25 @@ func (d *Decls) inModule(p *types.Package) bool {
 	return p != nil && (p.Path() == d.modPath || strings.HasPrefix(p.Path(), d.modPath+"/"))
 }
 
+// modelled: struct types whose fields are modelled (per-field heap arrays / datatypes): the
+// module's own structs unless declared opaque, and dependency structs declared transparent.
+func (d *Decls) modelled(n *types.Named) bool {
+	if n == nil || n.Obj().Pkg() == nil {
+		return false
+	}
+	q := n.Obj().Pkg().Name() + "." + n.Obj().Name()
+	if d.opaque[q] {
+		return false
+	}
+	return d.inModule(n.Obj().Pkg()) || d.transparent[q]
+}
+
 // sortOf maps a Go type to its SMT sort.
 func (d *Decls) sortOf(t types.Type) *Sort {
 	switch u := t.(type) {
 	case *types.Named:
 		if st, ok := u.Underlying().(*types.Struct); ok {
-			if !d.inModule(u.Obj().Pkg()) || d.opaque[u.Obj().Pkg().Name()+"."+u.Obj().Name()] {
+			if !d.modelled(u) {
 				return sV
 			}
 			return d.structSort(u, st)
